@@ -6,7 +6,7 @@
     in the composition theorems the handler is ANY script and the chain ANY list.
     [repaired] = the code after the two fix: commits, [pinned] = before (D2, D3). *)
 From WM Require Import Base.Prelude Simple.Model Simple.Monitor Simple.Throttle
-  Simple.ThrottleCtx Simple.Proofs Simple.ThrottleProofs Simple.ThrottleCtxProofs Simple.DelayProofs Simple.ComposeProofs Simple.AcceptProofs Simple.Deadline Simple.DeadlineProofs Corr.C19 Simple.ChainAcceptProofs Simple.Extra Corr.C19x Simple.ExtraProofs Simple.InRouter Simple.InRouterProofs.
+  Simple.ThrottleCtx Simple.Proofs Simple.ThrottleProofs Simple.ThrottleCtxProofs Simple.DelayProofs Simple.ComposeProofs Simple.AcceptProofs Simple.Deadline Simple.DeadlineProofs Corr.C19 Simple.ChainAcceptProofs Simple.Extra Corr.C19x Simple.ExtraProofs Simple.InRouter Simple.InRouterProofs Simple.TimingAcceptProofs.
 
 (** Timeout: the result is the handler's; during the call ... *)
 Theorem C19_timeout_transparent : forall d (h : handler) w,
@@ -331,7 +331,23 @@ Theorem C19_instant_ack_router_acks : forall pk pb outer inner s w,
   MM.st (fst (RH.handle pk pb (chain_in_router (stack repaired (outer ++ MInstantAck :: inner) (scripted s)) w))) = Acked.
 Proof. exact instant_ack_router_acks. Qed.
 
+(** the timing acceptors the check evaluates (Corr/C19.v) never reject what the clock models do *)
+Theorem C19_throttle_model_accepted : forall p slack, (0 < p)%Z -> (0 <= slack)%Z -> forall arr t0,
+  thr_violates (Thr p slack (throttle_run p (new_ticker t0 p) t0 arr)) = false.
+Proof. exact thr_model_accepted. Qed.
+Theorem C19_throttle_count_model_accepted : forall p, (0 < p)%Z -> forall arr t0,
+  let starts := throttle_run p (new_ticker t0 p) t0 arr in
+  thr_count_violates p (Z.of_nat (length starts)) t0 (last starts t0) = false.
+Proof. exact thr_count_model_accepted. Qed.
+Theorem C19_deadline_model_accepted : forall c dmin slack, timeouts c <> [] -> (forall d, In d (timeouts c) -> (dmin <= d)%Z) ->
+  (0 <= slack)%Z -> forall n lats lates waits,
+  dl_violates (DL dmin slack (attempts n 0 c lats lates waits) n) = false.
+Proof. exact dl_model_accepted. Qed.
+
 Print Assumptions C19_timeout_transparent.
+Print Assumptions C19_throttle_model_accepted.
+Print Assumptions C19_throttle_count_model_accepted.
+Print Assumptions C19_deadline_model_accepted.
 Print Assumptions C19_duplicator_twice.
 Print Assumptions C19_random_fail_panic_frame.
 Print Assumptions C19_extra_chain_result.
